@@ -9,6 +9,6 @@ for p in "$@"; do
   rc=$?
   v=$(echo "$out" | grep -c '^VIOLATION')
   first=$(echo "$out" | grep '^VIOLATION' | head -3 | sed "s/.*replays.//" | tr '\n' ' ')
-  echo "$(basename $(dirname $patch))/$(basename $patch) $p rc=$rc violations=$v $first"
+  echo "$(basename $(dirname $patch)) $p rc=$rc violations=$v $first"
 done
 git checkout -- . ; git clean -fdq -- . 2>/dev/null
